@@ -56,6 +56,11 @@ type Contract struct {
 	Guards      []*Guard
 	Rely        []*Clause // assumed after every blocking point (other steps have run meanwhile); old() = just before blocking
 	Invariants  []*Clause // closures passed to Range: hold before and after every invocation
+	// Async: the function is a timer callback (time.AfterFunc): it runs at an
+	// arbitrary later moment, after any number of other steps. Its clauses
+	// must imply every `requires` clause, and every function under contract
+	// must preserve them for every object (obligation kind "stable").
+	Async []*Clause
 	DeadReturns map[int]bool // return sites declared unreachable (defensive code)
 	LoopInv     map[int][]*Clause
 	Ghost       []*GhostStmt
@@ -118,6 +123,11 @@ func (c *Contract) AllTags() []string {
 			m[t] = true
 		}
 	}
+	for _, cl := range c.Async {
+		for _, t := range cl.Tags {
+			m[t] = true
+		}
+	}
 	for _, cl := range c.Rely {
 		for _, t := range cl.Tags {
 			m[t] = true
@@ -157,7 +167,7 @@ func (c *Contract) AllTags() []string {
 
 var keywords = map[string]bool{"func": true, "requires": true, "ensures": true, "assigns": true, "nopanic": true,
 	"inline": true, "trusted": true, "loop": true, "at": true, "spec": true, "pred": true, "ghost": true,
-	"lemma": true, "assumption": true, "rely": true, "opaquecalls": true, "stopat": true, "flows": true, "memwrites": true, "tags": true, "let": true, "guarded": true, "invariant": true, "opaque": true, "deadreturn": true}
+	"lemma": true, "assumption": true, "rely": true, "async": true, "opaquecalls": true, "stopat": true, "flows": true, "memwrites": true, "tags": true, "let": true, "guarded": true, "invariant": true, "opaque": true, "deadreturn": true}
 
 // Flow: `flows T.F <- x into f`: the (single) struct literal of type T built in
 // the function stores into field F the SSA value the local x denotes at the
@@ -361,12 +371,17 @@ func (cs *contractSet) parseFile(root, file string) error {
 				g.Fields = append(g.Fields, strings.TrimSpace(f))
 			}
 			cur.Guards = append(cur.Guards, g)
-		case "requires", "ensures", "invariant", "rely":
+		case "requires", "ensures", "invariant", "rely", "async":
 			cl, err := parseClause(rest, file, c.line)
 			if err != nil {
 				return err
 			}
-			if word == "rely" {
+			if word == "async" {
+				if cl.Label == "" {
+					cl.Label = fmt.Sprintf("a%d", len(cur.Async))
+				}
+				cur.Async = append(cur.Async, cl)
+			} else if word == "rely" {
 				if cl.Label == "" {
 					cl.Label = fmt.Sprintf("y%d", len(cur.Rely))
 				}
